@@ -843,6 +843,8 @@ def run_forest(block, ctx, scratch):
     if part:
         ctx.extra["forest_universes"] -= 1
         ctx.extra["forest_universe_rows"] -= len(u["top"]) + len(u["child"])
+    total = case_count(u, n_max)
+    ctx.extra["forest_cases_expected"] += len(range(part, total, of))
     for num, (old_l, new_l, n, shape) in enumerate(forest_cases(u, n_max)):
         if num % of != part:
             continue
@@ -850,6 +852,7 @@ def run_forest(block, ctx, scratch):
             return
         viol, info = one_case(ctx, hw, label, old_l, new_l, False, "forest")
         ctx.extra["forest_cases_n%d" % n] += 1
+        ctx.extra["forest_cases_run"] += 1
         if n <= n_workers and not viol and info["f"]["st"] == "ok":
             try:
                 ot, nt = _texts(hw, old_l, new_l)
@@ -867,6 +870,15 @@ def run_forest(block, ctx, scratch):
             ctx.sample({"part": "forest", "hw": hw.model, "rule": u["rule"], "logic": u["logic"], "chain": u["chain"],
                         "universe": u["top"], "children": u["child"], "old": old_l, "new": new_l,
                         "commands": info["d"]["cmds"][:6]})
+
+
+def finish(merged, tier):
+    """completeness of the forest part: every case the shape count promises was executed (unless the budget cut in)"""
+    exp, run = merged["extra"].get("forest_cases_expected", 0), merged["extra"].get("forest_cases_run", 0)
+    if not merged["capped"] and exp != run:
+        merged["viol"]["harness-incomplete"] = {
+            "sig": {"kind": "harness-error", "where": "forest enumeration incomplete"}, "count": 1,
+            "cases": [{"case": {"expected": exp, "run": run}, "detail": "expected %d forest cases, ran %d" % (exp, run)}]}
 
 
 # ---------------------------------------------------------------------------------------------------
